@@ -118,3 +118,9 @@ pub mod mntax {
 }
 pub use mntax::{mnt_of, mnt_at};
 //@broadcast mntax::axiom_mnt_at_empty
+/// R12: `unsafe { BorrowedFd::borrow_raw(fd) }` -- forming a BorrowedFd from a negative number is UB
+#[verifier::external_body]
+pub fn borrow_raw_nonneg<'a>(fd: i32) -> (r: BorrowedFd<'a>)
+    requires fd >= 0                             // [C11+C17.borrow_raw.only_nonnegative]
+    ensures raw_of(r.id@) == fd as int, borrowed_from_c(r.id@)
+{ unimplemented!() }
